@@ -50,7 +50,7 @@ declare_class('saml2_tophat.sigver:SecurityContext', fields={
     'id_attr': 'Str',
     # the xmlsec1 backend is the one in scope; CryptoBackendXMLSecurity (optional pyXMLSecurity) is not covered
     'crypto': "Inst('saml2_tophat.sigver:CryptoBackendXmlSec1')",
-    'sec_backend': 'Any',
+    'sec_backend': "Opt(Inst('saml2_tophat.sigver:RSACrypto'))",
     'key_file': 'Any', 'key_type': 'Any',
     'cert_file': 'Opt(Str)', 'cert_type': 'Str',
     'enc_key_files': 'Opt(List(Str))', 'enc_key_type': 'Any',
